@@ -36,6 +36,7 @@ from vf import par, vloop, vloopx
 NEEDS_SERVICES = False
 
 MODES = ('raise', 'raise_cancel', 'return_exc', 'top_gather', 'top_gather_cancel', 'online')
+ALL_KINDS = ('ok', 'raise', 'baseexc', 'selfcancel', 'innercancel')
 
 
 def _waiter_name(f):
@@ -54,6 +55,18 @@ class PfError(Exception):
         self.i = i
 
 
+class PfBase(BaseException):
+    """A failure that is a BaseException but not an Exception (like KeyboardInterrupt / SystemExit / GeneratorExit)."""
+
+    def __init__(self, i):
+        super().__init__(f'pf{i}')
+        self.i = i
+
+
+ERROR_KINDS = ('raise', 'baseexc')            # the partial function fails with its own error
+CANCEL_KINDS = ('selfcancel', 'innercancel')  # CancelledError surfaces in the body although its task was not cancelled
+
+
 def make_run_one(mode, P, pfs, cancel_caller, reduce=True):
     from hailtop.utils import utils as U
 
@@ -69,6 +82,7 @@ def make_run_one(mode, P, pfs, cancel_caller, reduce=True):
         ph = [('new', 0)] * n
         started = []
         in_body = set()
+        side = {}
         st = {'viol': None, 'sig': None, 'running': 0, 'maxrun': 0, 'fails': [], 'caller': 'new', 'ctl': None, 'exit': None,
               'phase2': False, 'exited': False, 'leftover': None, 'helper_tasks': None}
         own = {}
@@ -104,10 +118,28 @@ def make_run_one(mode, P, pfs, cancel_caller, reduce=True):
                     st['fails'].append(i)
                     ph[i] = ('done', 'raised')
                     raise PfError(i)
+                if kind == 'baseexc':
+                    st['fails'].append(i)
+                    ph[i] = ('done', 'raised-base')
+                    raise PfBase(i)
                 if kind == 'selfcancel':
                     st['fails'].append(i)
                     ph[i] = ('done', 'selfcancel')
                     raise asyncio.CancelledError()
+                if kind == 'innercancel':
+                    # awaits an inner future that a third party (a side task of the harness) cancels
+                    lp = asyncio.get_running_loop()
+                    inner = lp.create_future()
+                    side[i] = lp.create_task(canceller(inner), name=f'side{i}')
+                    ph[i] = ('run', 'inner')
+                    try:
+                        await inner
+                    except asyncio.CancelledError:
+                        if inner.cancelled() and not asyncio.current_task().cancelling():
+                            st['fails'].append(i)
+                            ph[i] = ('done', 'innercancel')
+                        raise
+                    raise RuntimeError('C20 harness: inner future completed without being cancelled')
                 ph[i] = ('done', 'ok')
                 return i
             except asyncio.CancelledError:
@@ -116,6 +148,9 @@ def make_run_one(mode, P, pfs, cancel_caller, reduce=True):
                 raise
             finally:
                 st['running'] -= 1
+
+        async def canceller(fut):
+            fut.cancel()
 
         async def pf2(i):
             enter_body(f'second-call pf{i}')
@@ -126,7 +161,7 @@ def make_run_one(mode, P, pfs, cancel_caller, reduce=True):
                 st['running'] -= 1
 
         def helper_tasks():
-            return [t for t in loop._vf_tasks if t.get_name() not in ('main', 'caller', 'ctl')]
+            return [t for t in loop._vf_tasks if t.get_name() not in ('main', 'caller', 'ctl') and not t.get_name().startswith('side')]
 
         def by_name(ts, nm):
             for t in ts:
@@ -135,8 +170,8 @@ def make_run_one(mode, P, pfs, cancel_caller, reduce=True):
             raise RuntimeError(f'C20 harness: no task named {nm}')
 
         def describe_exc(e):
-            if isinstance(e, PfError):
-                return ('PfError', e.i)
+            if isinstance(e, (PfError, PfBase)):
+                return (type(e).__name__, e.i)
             return (type(e).__name__,)
 
         def at_exit(kind, val):
@@ -152,8 +187,8 @@ def make_run_one(mode, P, pfs, cancel_caller, reduce=True):
                 if pend:
                     fail(f'{mode}:task-pending-after-normal-return', f'{len(pend)} task(s) still pending after the helper returned')
                 if mode == 'return_exc':
-                    exp = [(None, ('PfError', i)) if pfs[i][0] == 'raise' else (None, ('CancelledError',)) if pfs[i][0] == 'selfcancel'
-                           else (i, None) for i in range(n)]
+                    exp = [(None, ('PfError', i)) if pfs[i][0] == 'raise' else (None, ('PfBase', i)) if pfs[i][0] == 'baseexc'
+                           else (None, ('CancelledError',)) if pfs[i][0] in CANCEL_KINDS else (i, None) for i in range(n)]
                     got = None
                     if isinstance(val, list) and all(isinstance(x, tuple) and len(x) == 2 for x in val):
                         got = [(v, None if e is None else describe_exc(e)) for v, e in val]
@@ -163,7 +198,7 @@ def make_run_one(mode, P, pfs, cancel_caller, reduce=True):
                 elif mode == 'online':
                     got = [t.result() if t.done() and not t.cancelled() else 'n/a' for t in val]
                     exp = [i if pfs[i][0] == 'ok' else None for i in range(n)]
-                    if any(pfs[i][0] == 'raise' for i in range(n)) and not cancelled_caller:
+                    if any(pfs[i][0] in ERROR_KINDS for i in range(n)) and not cancelled_caller:
                         fail('online:error-swallowed', f'a background task raised but the pool exited normally; pfs {pfs}')
                     elif got != exp and not cancelled_caller:
                         fail('results-out-of-order', f'online: task results {got}, expected {exp}')
@@ -185,14 +220,16 @@ def make_run_one(mode, P, pfs, cancel_caller, reduce=True):
             if cancelled_caller:
                 return
             if mode == 'return_exc':
-                fail('return_exceptions-raised', f'return_exceptions mode raised {describe_exc(e)}')
+                fail('return_exceptions-raised', f'return_exceptions mode, pfs {pfs}, P={P}: the helper raised {describe_exc(e)} instead of '
+                     f'returning every exception in place; {len(pend)} task(s) it created still pending {list(st["leftover"])}; pf states {ph}')
                 return
-            fails = [i for i in st['fails'] if mode != 'online' or pfs[i][0] == 'raise']
+            fails = [i for i in st['fails'] if mode != 'online' or pfs[i][0] in ERROR_KINDS]
             if not fails:
                 fail('raised-without-a-failure', f'mode {mode} raised {describe_exc(e)} although no partial function failed')
                 return
             first = fails[0]
-            want = ('PfError', first) if pfs[first][0] == 'raise' else ('CancelledError',)
+            want = (('PfError', first) if pfs[first][0] == 'raise' else ('PfBase', first) if pfs[first][0] == 'baseexc'
+                    else ('CancelledError',))
             if describe_exc(e) != want:
                 fail(f'{family or mode}:raised-exception-is-not-the-first', f'mode {mode}, pfs {pfs}, P={P}: partial functions failed in the order '
                      f'{fails} but the helper raised {describe_exc(e)} instead of {want}')
@@ -281,6 +318,7 @@ def make_run_one(mode, P, pfs, cancel_caller, reduce=True):
             semas = tuple((getattr(sm, '_value', None), tuple(_waiter_name(f) for f in (getattr(sm, '_waiters', None) or ()))) for sm in semas_made)
             return (queued, semas, tuple(ph), st['running'], st['maxrun'], tuple(st['fails']), st['caller'], st['ctl'], st['exit'], st['leftover'],
                     st['viol'] is None, tuple((t.get_name(), t.cancelling(), vloopx.pc(t)) for t in ht),
+                    tuple(sorted((i, t.done()) for i, t in side.items())),
                     vloopx.pc(own['caller']) if 'caller' in own else None, own['caller'].cancelling() if 'caller' in own else 0)
 
         def hook():
@@ -312,7 +350,7 @@ def make_run_one(mode, P, pfs, cancel_caller, reduce=True):
             asyncio.Semaphore = real_sema
         for e in errs:
             ex = e.get('exception')
-            if ex is not None and not isinstance(ex, (PfError, asyncio.CancelledError)):
+            if ex is not None and not isinstance(ex, (PfError, PfBase, asyncio.CancelledError)):
                 raise RuntimeError(f'C20 harness: unexpected loop error {e.get("message")}: {ex!r}')
         outcome = (mode, st['ctl'], st['exit'], tuple(ph), st['maxrun'], st['leftover'], tuple(st['fails']), stuck)
         return outcome, st['viol'], st['sig']
@@ -358,17 +396,19 @@ def _size(cfg):
 def configs(tier):
     out = []
     if tier == 'quick':
-        plan = [(2, (1, 2), ('ok', 'raise'), (0, 1), MODES), (3, (1, 2), ('ok', 'raise'), (0, 1), MODES)]
+        plan = [(2, (1, 2), ALL_KINDS, (0, 1), MODES, 2), (3, (1, 2), ('ok', 'raise'), (0, 1), MODES, 0)]
     else:
-        plan = [(2, (1, 2, 3), ('ok', 'raise', 'selfcancel'), (0, 1, 2), MODES),
-                (3, (1, 2, 3), ('ok', 'raise', 'selfcancel'), (0, 1), MODES),
-                (3, (1, 2), ('ok', 'raise'), (0, 1, 2), MODES),
-                (4, (1, 2, 3), ('ok', 'raise'), (0, 1), MODES)]
+        plan = [(2, (1, 2, 3), ALL_KINDS, (0, 1, 2), MODES, 2),
+                (3, (1, 2, 3), ALL_KINDS, (0, 1), MODES, 1),
+                (3, (1, 2), ('ok', 'raise'), (0, 1, 2), MODES, 0),
+                (4, (1, 2, 3), ('ok', 'raise'), (0, 1), MODES, 0)]
     seen = set()
-    for n, Ps, kinds, ks, modes in plan:
+    for n, Ps, kinds, ks, modes, max_exotic in plan:
         types = [(kd, k) for kd in kinds for k in ks]
         for pfs in itertools.product(types, repeat=n):
             if n >= 4 and sum(1 for kd, _ in pfs if kd != 'ok') > 2:
+                continue
+            if sum(1 for kd, _ in pfs if kd not in ('ok', 'raise')) > max_exotic:
                 continue
             for P in Ps:
                 for mode in modes:
@@ -390,6 +430,8 @@ SELFCHECK = [
     ('raise', 2, (('raise', 1), ('raise', 0), ('ok', 1)), False),
     ('online', 2, (('ok', 1), ('raise', 1)), True),
     ('return_exc', 1, (('raise', 0), ('ok', 1)), True),
+    ('return_exc', 2, (('innercancel', 0), ('baseexc', 1)), False),
+    ('raise_cancel', 2, (('innercancel', 1), ('ok', 1)), True),
 ]
 
 
@@ -440,10 +482,13 @@ def check(tier, seed, procs):
         'executions_by_feature': dict(sorted(cnt.items())),
         'deviation_bound': 'unbounded (every order of task steps; asyncio callbacks FIFO; state-hash pruned)',
         'bounds': ('modes ' + '/'.join(MODES) + '; ' +
-                   ('2-3 partial functions, each returns|raises after 0..1 yields; parallelism 1-2; caller cancelled at any step or not '
-                    '(with 3 partial functions and a cancelled caller: at most one yield in total)'
+                   ('2 partial functions, each returns | raises an Exception | raises a non-Exception BaseException | raises CancelledError | '
+                    'awaits an inner future that a side task cancels, after 0..1 yields; 3 partial functions, each returns|raises after 0..1 '
+                    'yields; parallelism 1-2; caller cancelled at any step or not (with 3 partial functions and a cancelled caller: at most '
+                    'one yield in total)'
                     if tier == 'quick' else
-                    '2 pfs (returns|raises|raises CancelledError after 0..2 yields), 3 pfs (same kinds, 0..1 yields; returns|raises, 0..2 yields), '
+                    '2 pfs (returns | raises Exception | raises non-Exception BaseException | raises CancelledError | inner future cancelled by a '
+                    'side task, after 0..2 yields), 3 pfs (same kinds with at most one of the last three, 0..1 yields; returns|raises, 0..2 yields), '
                     '4 pfs (returns|raises, 0..1 yields, <=2 failing; caller cancellation only for cancel_on_error and return_exceptions modes); '
                     'parallelism 1-3 (1-2 for the 0..2-yield 3-pf family); caller cancelled at any step or not')),
     }
